@@ -1,8 +1,9 @@
 Require Extraction.
 Require Import ExtrOcamlBasic.
 From Coq Require Import NArith ZArith List.
-From CppcmsV Require Import C12.Defs.
+From CppcmsV Require Import C12.Defs C12.ResDefs C12.MoreDefs.
 Definition keep_types : (N * Z * nat) := (0%N, 0%Z, 0%nat).
 Extraction "c12m.ml" keep_types ct_boundary make_boundary init_state drive feed req_loop request_multipart
   parse_urlencoded f_size has_mime f_name f_filename f_mime f_rdata cur rfiles ready st pos media_type
-  deliver_post deliver_files encode mrun containsb mklim request_service.
+  deliver_post deliver_files encode mrun containsb mklim request_service
+  lifecycle l_start l_app_end l_destroyed l_released get_query request_plain request_service_ab.
